@@ -31,7 +31,7 @@ def run_cases(ctx, cases, label, scratch):
             continue
         b, s = scratch.fresh()
         try:
-            signal.setitimer(signal.ITIMER_REAL, CASE_TIMEOUT)
+            signal.setitimer(signal.ITIMER_REAL, CASE_TIMEOUT, 0.5)      # repeating: a swallowed timeout is raised again
             try:
                 key = GT.order_key_for(c.meta.get('order_seed', 0))
                 paths = c.tree.realise(b, s)
@@ -1119,13 +1119,8 @@ def c16(ctx):
             orig = ET.run_impl
 
             def guarded(*a, **k):
-                signal.alarm(20)
-                try:
-                    return orig(*a, **k)
-                except TimeoutError as e:
-                    return ['timeout', str(e)]
-                finally:
-                    signal.alarm(0)
+                # run_cases holds the (repeating) watchdog: a walk that does not come back is reported there
+                return orig(*a, **k)
             ET.run_impl = guarded
             try:
                 res = run_cases(ctx, cases, 'tree:symlink-graphs', sc)
